@@ -58,16 +58,19 @@ CONSTANTS Kinds,        \* subset of {"map", "value", "event"} : downlink kinds 
           Counts,       \* arguments of take / drop (subset of Nat; {} = no take / drop)
           LocalWrites,  \* interleave writes made through the downlink's own handle
           Illegal,      \* also send notifications outside the link grammar (absence of panics only)
+          EnvFaults,    \* environment actions: every write handle dropped ; the downlink's output channel fails
           MaxLen        \* > 0 : enumerate all sequences up to this length ; 0 : unbounded (state graph)
 
 VARIABLES cf,           \* [kind, ewns, tou] : chosen once
           st,           \* link status implied by the notifications: "U" "L" "S" "X" (terminated) "chaos"
           c,            \* data of the client replica   (map.rs State::{Linked,Synced}(map) / value.rs State)
           h,            \* data of the hosted replica   (HostedMapDownlink.state / ValueDlState)
+          io,           \* [h : write handles still alive, o : output channel still open] - decides the IO mode:
+                        \* client run_io Mode::{ReadWrite, Read}, hosted write_stream Active / Stopped
           lastAct,      \* the input just given and the outputs M expects (hidden from the VIEW)
           trace         \* history variable: all lastAct records so far
 
-vars == <<cf, st, c, h, lastAct, trace>>
+vars == <<cf, st, c, h, io, lastAct, trace>>
 
 None == 0
 Min(a, b) == IF a < b THEN a ELSE b
@@ -98,6 +101,8 @@ CbUnlinked == Cb("unlinked", 0, 0, 0, <<>>)
 MapEventKinds == {"update", "remove", "clear", "take", "drop"}
 EventKinds == MapEventKinds \cup {"event"}
 WriteKinds == {"w_update", "w_remove", "w_clear", "w_set"}
+\* what the environment does to the downlink's write side: drop every handle ; close the output channel
+EnvKinds == {"drop_handles", "out_fail"}
 
 \* the notification a write through the handle corresponds to
 AsNotif(w) == CASE w.k = "w_update" -> [k |-> "update", key |-> w.key, val |-> w.val]
@@ -136,6 +141,7 @@ PS(s, d) == [st |-> s, d |-> d]
 \* keeps to one.
 PSucc(kind, tou, opt, s, n) ==
     IF s.st = "X" THEN {s}                                        \* terminated: nothing happens any more
+    ELSE IF n.k \in EnvKinds THEN {s}                             \* the IO mode is invisible: all laws hold unchanged
     ELSE IF n.k \in WriteKinds THEN
         IF opt /\ kind = "map" /\ s.st \in {"L", "S"}
         THEN {PS(s.st, Apply(kind, s.d, AsNotif(n)))}
@@ -170,7 +176,7 @@ BulkRemoveOK(m, m2, cbs) ==
 \* The callbacks P allows when input n takes the replica from s to s2.
 PCbsOK(kind, ewns, s, n, cbs, s2) ==
     LET disp == s.st = "S" \/ ewns IN     \* events are reported when synced or when events_when_not_synced
-    IF s.st = "X" \/ n.k \in WriteKinds THEN cbs = <<>>
+    IF s.st = "X" \/ n.k \in WriteKinds \cup EnvKinds THEN cbs = <<>>
     ELSE CASE n.k = "linked"   -> cbs = <<CbLinked>>
            [] n.k = "unlinked" -> cbs = <<CbUnlinked>>
            [] n.k = "synced"   ->
@@ -281,6 +287,7 @@ AllWrites == Writes("map") \cup Writes("value")
 
 Init == /\ cf \in [kind : Kinds, ewns : EwnsSet, tou : TouSet]
         /\ st = "U" /\ c = Empty(cf.kind) /\ h = Empty(cf.kind)
+        /\ io = [h |-> TRUE, o |-> TRUE]
         /\ lastAct = [k |-> "init", cf |-> cf]
         /\ trace = <<>>
 
@@ -289,7 +296,7 @@ OnLinked ==
     /\ st = "U" /\ Bounded
     /\ st' = "L" /\ c' = Empty(cf.kind) /\ h' = Empty(cf.kind)
     /\ Record(Linked, Out(<<CbLinked>>, FALSE), Out(<<CbLinked>>, FALSE))
-    /\ UNCHANGED cf
+    /\ UNCHANGED <<cf, io>>
 
 \* on_read Synced in State::Linked : on_synced sees the state of that moment
 SyncedCbs(impl, d) ==
@@ -300,7 +307,7 @@ OnSynced ==
     /\ st = "L" /\ (cf.kind = "value" => h # None) /\ Bounded
     /\ st' = "S"
     /\ Record(Synced, Out(SyncedCbs("client", c), FALSE), Out(SyncedCbs("hosted", h), FALSE))
-    /\ UNCHANGED <<cf, c, h>>
+    /\ UNCHANGED <<cf, c, h, io>>
 
 \* on_read Unlinked : the replica is discarded, the task ends if terminate_on_unlinked
 OnUnlinked ==
@@ -308,7 +315,7 @@ OnUnlinked ==
     /\ st' = IF cf.tou THEN "X" ELSE "U"
     /\ c' = Empty(cf.kind) /\ h' = Empty(cf.kind)
     /\ Record(Unlinked, Out(<<CbUnlinked>>, cf.tou), Out(<<CbUnlinked>>, cf.tou))
-    /\ UNCHANGED cf
+    /\ UNCHANGED <<cf, io>>
 
 MapEvent(e) ==
     /\ st \in {"L", "S"} /\ Bounded
@@ -316,7 +323,7 @@ MapEvent(e) ==
            rh == M_MapEvent("hosted", h, e)
        IN /\ c' = rc.d /\ h' = rh.d
           /\ Record(e, Out(rc.cbs, FALSE), Out(rh.cbs, FALSE))
-    /\ UNCHANGED <<cf, st>>
+    /\ UNCHANGED <<cf, st, io>>
 OnUpdate(k, v) == cf.kind = "map" /\ MapEvent([k |-> "update", key |-> k, val |-> v])
 OnRemove(k) == cf.kind = "map" /\ MapEvent([k |-> "remove", key |-> k])
 OnClear == cf.kind = "map" /\ MapEvent([k |-> "clear"])
@@ -329,28 +336,47 @@ OnValueEvent(v) ==
     /\ c' = v /\ h' = v
     /\ LET cbs(old) == IF Disp THEN <<Cb("event", 0, 0, v, <<>>), Cb("set", 0, old, v, <<>>)>> ELSE <<>>
        IN Record([k |-> "event", val |-> v], Out(cbs(c), FALSE), Out(cbs(h), FALSE))
-    /\ UNCHANGED <<cf, st>>
+    /\ UNCHANGED <<cf, st, io>>
 
 \* event.rs : on_event whenever linked ; hosted event downlink: when synced or events_when_not_synced
 OnEventEvent(v) ==
     /\ cf.kind = "event" /\ st \in {"L", "S"} /\ Bounded
     /\ LET ev == <<Cb("event", 0, 0, v, <<>>)>>
        IN Record([k |-> "event", val |-> v], Out(ev, FALSE), Out(IF Disp THEN ev ELSE <<>>, FALSE))
-    /\ UNCHANGED <<cf, st, c, h>>
+    /\ UNCHANGED <<cf, st, c, h, io>>
 
 \* run_io write arm (client map downlink): the write is applied to the replica at once when
 \* linked; the hosted downlink and the value downlinks only forward it.
 LocalWrite(w) ==
-    /\ LocalWrites /\ st \in {"U", "L", "S"} /\ w \in Writes(cf.kind) /\ Bounded
+    /\ LocalWrites /\ io.h /\ st \in {"U", "L", "S"} /\ w \in Writes(cf.kind) /\ Bounded
     /\ c' = IF cf.kind = "map" /\ st \in {"L", "S"} THEN Apply("map", c, AsNotif(w)) ELSE c
     /\ Record(w, Out(<<>>, FALSE), Out(<<>>, FALSE))
-    /\ UNCHANGED <<cf, st, h>>
+    /\ UNCHANGED <<cf, st, h, io>>
+
+\* The environment drops every handle through which the downlink can be written to: the client's
+\* run_io sees the end of its action stream and falls into Mode::Read (a second copy of the
+\* read loop), the hosted write stream stops (WriteStreamTerminated).  Nothing observable may
+\* change: no callback, no termination, the replica and every later step exactly as before.
+DropHandles ==
+    /\ EnvFaults /\ io.h /\ st \in {"U", "L", "S"} /\ Bounded
+    /\ io' = [io EXCEPT !.h = FALSE]
+    /\ Record([k |-> "drop_handles"], Out(<<>>, FALSE), Out(<<>>, FALSE))
+    /\ UNCHANGED <<cf, st, c, h>>
+
+\* The reader of the downlink's output channel goes away: later writes fail (value.rs run_io:
+\* a failed flush / feed also ends in Mode::Read ; map.rs logs and carries on).  Own writes
+\* stay enabled - they are what makes the failure visible to the task - and keep their meaning.
+OutFail ==
+    /\ EnvFaults /\ io.o /\ st \in {"U", "L", "S"} /\ Bounded
+    /\ io' = [io EXCEPT !.o = FALSE]
+    /\ Record([k |-> "out_fail"], Out(<<>>, FALSE), Out(<<>>, FALSE))
+    /\ UNCHANGED <<cf, st, c, h>>
 
 \* after termination nothing is delivered any more
 AfterStop(n) ==
     /\ st = "X" /\ n \in {Linked, CHOOSE e \in Events(cf.kind) : e.k \in {"update", "event"}} /\ Bounded
     /\ Record(n, Out(<<>>, TRUE), Out(<<>>, TRUE))
-    /\ UNCHANGED <<cf, st, c, h>>
+    /\ UNCHANGED <<cf, st, c, h, io>>
 
 \* inputs outside the link grammar: P is silent from here on; explored for absence of panics
 IllegalStep(n) ==
@@ -359,12 +385,12 @@ IllegalStep(n) ==
     /\ st' = "chaos" /\ c' = Empty(cf.kind) /\ h' = Empty(cf.kind)     \* the replicas are not tracked any more
     /\ lastAct' = n @@ [cf |-> cf, legal |-> FALSE]
     /\ trace' = Append(trace, lastAct')
-    /\ UNCHANGED cf
+    /\ UNCHANGED <<cf, io>>
 Chaos(n) ==
     /\ st = "chaos" /\ n \in Notifs(cf.kind) /\ Bounded
     /\ lastAct' = n @@ [cf |-> cf, legal |-> FALSE]
     /\ trace' = Append(trace, lastAct')
-    /\ UNCHANGED <<cf, st, c, h>>
+    /\ UNCHANGED <<cf, st, c, h, io>>
 
 Next == \/ OnLinked \/ OnSynced \/ OnUnlinked
         \/ \E k \in 1..NK, v \in 1..NV : OnUpdate(k, v)
@@ -373,6 +399,7 @@ Next == \/ OnLinked \/ OnSynced \/ OnUnlinked
         \/ \E n \in Counts : OnTake(n) \/ OnDrop(n)
         \/ \E v \in 1..NV : OnValueEvent(v) \/ OnEventEvent(v)
         \/ \E w \in AllWrites : LocalWrite(w)
+        \/ DropHandles \/ OutFail
         \/ \E n \in AllNotifs : AfterStop(n) \/ IllegalStep(n) \/ Chaos(n)
 
 Spec == Init /\ [][Next]_vars
@@ -382,6 +409,7 @@ Spec == Init /\ [][Next]_vars
 
 MapOK(m) == DOMAIN m \subseteq 1..NK /\ \A k \in DOMAIN m : m[k] \in 1..NV
 TypeOK == /\ st \in {"U", "L", "S", "X", "chaos"}
+          /\ io \in [h : BOOLEAN, o : BOOLEAN]
           /\ IF cf.kind = "map" THEN MapOK(c) /\ MapOK(h) ELSE c \in 0..NV /\ h \in 0..NV
 
 \* the inputs since the link was (last) established
@@ -440,6 +468,13 @@ MRefinesPStep ==
         /\ PStep(cf.kind, cf.ewns, cf.tou, FALSE, PS(st, h), Input(lastAct'), lastAct'.h.cbs, lastAct'.h.done, PS(st', h'))
 MRefinesP == [][MRefinesPStep]_vars
 
+\* the IO mode is invisible: an environment step changes neither replica nor status, fires nothing
+EnvStepsInvisibleStep ==
+    lastAct'.k \in EnvKinds =>
+        /\ st' = st /\ c' = c /\ h' = h
+        /\ lastAct'.c = Out(<<>>, FALSE) /\ lastAct'.h = Out(<<>>, FALSE)
+EnvStepsInvisible == [][EnvStepsInvisibleStep]_vars
+
 \* P's notion of legality is the link grammar M implements
 LegalIffGrammar ==
     \A n \in Notifs(cf.kind) :
@@ -449,5 +484,5 @@ LegalIffGrammar ==
                   [] n.k = "synced"   -> st = "L" /\ (cf.kind = "value" => h # None)
                   [] OTHER            -> st \in {"L", "S"})
 
-View == <<cf, st, Show(cf.kind, c), Show(cf.kind, h)>>
+View == <<cf, st, Show(cf.kind, c), Show(cf.kind, h), io>>
 =============================================================================
